@@ -64,6 +64,21 @@ def run_job(job):
                 raise
             except Exception as e:   # noqa: BLE001
                 raised = type(e).__name__
+            witness = None
+            if raised == 'ZeroDivisionError' and op in ('inv', 'div'):
+                # the error is right only if the operand has no inverse: a zero-divisor witness (verified by TLC) is
+                # searched when the operand is purely numeric; for a partly symbolic one no witness can be proposed
+                # here and the case is skipped (wrongly raised ZeroDivisionError is C07's business)
+                div_sym = ops_sym[-1]
+                if any(isinstance(v, sympy.Basic) and v.free_symbols for v in div_sym.values()):
+                    raise K.EncodeError('ZeroDivisionError on a partly symbolic operand: no witness proposed')
+                import pyref
+                xd = {int(k): Fraction(v) for k, v in zip(ops_num[-1].keys(), ops_num[-1].values()) if Fraction(v) != 0}
+                w = pyref.zero_divisor_witness(u, xd) if xd else {0: 1}
+                if w is None:
+                    witness = None
+                else:
+                    witness = MultiVector.fromkeysvalues(alg, tuple(w.keys()), list(w.values()))
 
             def toG(v):
                 if isinstance(v, sympy.Basic):
@@ -112,7 +127,7 @@ def run_job(job):
             ev = {'id': eid, 'kind': 'subst', 'op': op, 'ring': ring, 'args': [encmv(m, ring) for m in ops_sym],
                   'params': [int(p) for p in params], 'raised': raised,
                   'res': encmv(rs, ring) if rs is not None else {'keys': [], 'coefs': []},
-                  'witness': {'keys': [], 'coefs': []},
+                  'witness': encmv(witness, ring) if witness is not None else {'keys': [], 'coefs': []},
                   'sigma': [[sym2id[n], [Fraction(v).numerator, Fraction(v).denominator]] for n, v in sorted(sigma.items())],
                   'names': {n: sym2id[n] for n in sigma}, 'evals': evals}
             signal.alarm(0)
